@@ -30,7 +30,8 @@ EXTENDS Naturals, Sequences, TLC
 CONSTANTS P,          \* keep-alive period (ticks)
           L,          \* maximum lifetime (ticks)
           MaxClock,
-          MaxPeerKa   \* KEEPALIVE frames the server sends
+          MaxPeerKa,  \* KEEPALIVE frames the server sends
+          MaxBlocks   \* times the transport stops accepting writes (back-pressure: the sender is stuck in a write)
 
 VARIABLES k          \* the whole state, a record (the actions compose functions on it)
 vars == <<k>>
@@ -39,6 +40,9 @@ Init == k = [now |-> 0, last |-> 0, alive |-> TRUE,
              senderUp |-> TRUE, kaTaskUp |-> TRUE, recvUp |-> TRUE,
              sq |-> <<>>,                     \* frames queued and not yet written: "ka" | "echo"
              txKa |-> 0, txEcho |-> 0, unsent |-> 0,
+             enqKa |-> 0,                     \* respond-flagged KEEPALIVEs the keep-alive task has queued
+             blocked |-> FALSE, blocks |-> 0, \* the transport does not accept writes at the moment
+             stuck |-> FALSE,                 \* the sender is inside a write that has not completed
              timeouts |-> 0, toSince |-> 0, closes |-> 0,
              gaps |-> <<>>,                   \* history: now - last at each timeout callback
              peerKas |-> 0, owed |-> 0,       \* respond-flagged arrivals
@@ -47,13 +51,14 @@ Init == k = [now |-> 0, last |-> 0, alive |-> TRUE,
 (* the sender task: writes queued frames; re-evaluates `alive` after each one *)
 RECURSIVE Drain(_)
 Drain(s) ==
-    IF ~s.senderUp \/ s.sq = <<>> THEN s
+    IF ~s.senderUp \/ s.sq = <<>> \/ s.stuck THEN s
     ELSE LET f == Head(s.sq)
              s1 == [s EXCEPT !.sq = Tail(@),
                              !.txKa = IF f = "ka" THEN @ + 1 ELSE @,
                              !.txEcho = IF f = "echo" THEN @ + 1 ELSE @,
                              !.framesAfterDead = IF ~s.alive THEN @ + 1 ELSE @]
-         IN IF s1.alive THEN Drain(s1)
+         IN IF s.blocked THEN [s1 EXCEPT !.stuck = TRUE]       \* handed to the transport, whose write does not complete
+            ELSE IF s1.alive THEN Drain(s1)
             ELSE [s1 EXCEPT !.senderUp = FALSE, !.kaTaskUp = FALSE, !.unsent = @ + Len(s1.sq), !.sq = <<>>]
 
 Watchdog(s) ==
@@ -63,7 +68,7 @@ Watchdog(s) ==
 
 KaTimer(s) ==
     IF s.kaTaskUp /\ s.now % P = 0
-    THEN IF s.senderUp THEN [s EXCEPT !.sq = Append(@, "ka")] ELSE [s EXCEPT !.unsent = @ + 1]
+    THEN IF s.senderUp THEN [s EXCEPT !.sq = Append(@, "ka"), !.enqKa = @ + 1] ELSE [s EXCEPT !.unsent = @ + 1, !.enqKa = @ + 1]
     ELSE s
 
 Tick == /\ k.now < MaxClock
@@ -83,7 +88,18 @@ PeerKa(respond) ==
                     IN [s2 EXCEPT !.recvUp = FALSE, !.closes = @ + 1, !.senderUp = FALSE, !.kaTaskUp = FALSE,
                                   !.unsent = @ + Len(s2.sq), !.sq = <<>>]
 
-Next == Tick \/ PeerKa(TRUE) \/ PeerKa(FALSE)
+(* back-pressure: the transport stops / resumes accepting writes.  The keep-alive task keeps queueing its frame every period
+   whatever is still waiting to be written. *)
+Block == /\ ~k.blocked /\ k.blocks < MaxBlocks /\ k.senderUp
+         /\ k' = [k EXCEPT !.blocked = TRUE, !.blocks = @ + 1]
+Unblock == /\ k.blocked
+           /\ LET s1 == [k EXCEPT !.blocked = FALSE, !.stuck = FALSE]
+              IN k' = IF k.stuck /\ ~k.alive /\ k.senderUp
+                      THEN \* the pending write completes; the sender then finds the server declared dead and ends
+                           [s1 EXCEPT !.senderUp = FALSE, !.kaTaskUp = FALSE, !.unsent = @ + Len(s1.sq), !.sq = <<>>]
+                      ELSE Drain(s1)
+
+Next == Tick \/ PeerKa(TRUE) \/ PeerKa(FALSE) \/ Block \/ Unblock
 Spec == Init /\ [][Next]_vars
 
 ----------------------------------------------------------------------------
@@ -92,8 +108,8 @@ NoFalseTimeout == \A i \in 1..Len(k.gaps) : k.gaps[i] > L
 (* silent for two lifetimes (or more) => the callback has been invoked since the last arrival *)
 TimeoutDetected == (k.recvUp /\ k.now - k.last >= 2 * L) => k.toSince >= 1
 (* arrivals at intervals <= L never let the callback run: by NoFalseTimeout, a callback needs a gap > L *)
-Periodic == (k.alive /\ k.senderUp) => k.txKa = k.now \div P
-EchoExactlyOnce == k.alive => k.txEcho = k.owed
+Periodic == (k.alive /\ k.senderUp) => (k.enqKa = k.now \div P /\ (~k.blocked => k.txKa = k.enqKa))
+EchoExactlyOnce == (k.alive /\ ~k.blocked) => k.txEcho = k.owed
 NoEchoWithoutFlag == k.txEcho <= k.owed
 (* implementation-defined aftermath of a timeout, kept as invariants so that a change is noticed *)
 AtMostOneFrameAfterDead == k.framesAfterDead <= 1
